@@ -9,9 +9,10 @@ From Utreexo Require Import Spec.Oracle Spec.Schedule Model.Utils Model.Verify M
 From Utreexo Require Model.MapRead Model.ProofOps Model.UtilsFast.
 From Utreexo Require Model.ProofUpdate.
 From Utreexo Require Model.MapMut.
+From Utreexo Require Model.TTL.
 Extraction Language OCaml.
 Extraction "oracle_gen.ml"
-  mk_ctx Utreexo.Model.MapMut.mm_modify Utreexo.Model.MapMut.mm_undo Utreexo.Model.MapMut.mm_verify_remember Utreexo.Model.MapMut.mm_ingest Utreexo.Model.MapMut.mm_prune Utreexo.Model.ProofUpdate.proof_update Utreexo.Model.ProofUpdate.proof_undo Utreexo.Model.UtilsFast.ProofPositions_fast Utreexo.Model.ProofOps.AddProof Utreexo.Model.ProofOps.GetProofSubset Utreexo.Model.ProofOps.GetMissingPositionsFn Utreexo.Model.MapRead.GetHash Utreexo.Model.MapRead.GetLeafPosition Utreexo.Model.MapRead.GetLeafHashPositions Utreexo.Model.MapRead.getRoots Utreexo.Model.MapRead.Prove Utreexo.Model.MapRead.GetMissingPositions Utreexo.Model.MapRead.VerifyPartialProof Utreexo.Model.MapRead.map_verify Utreexo.Spec.Geometry.geom_expect encode_pollard_of_forest decode_pollard_bytes pimage_leaf_hashes decode_map_bytes encode_map_image forest check_schedule ttl_okb chk_schedule exp_ttls chk_gethash_dual claims_true_dual mirror_map_verify chk_roots chk_count exp_leafpos chk_leafpos chk_gethash exp_prove chk_prove exp_root_indexes
+  mk_ctx Utreexo.Model.TTL.ttl_empty Utreexo.Model.TTL.ttl_add_block_summary Utreexo.Model.TTL.ttl_gen Utreexo.Model.TTL.ttl_run Utreexo.Model.MapMut.mm_modify Utreexo.Model.MapMut.mm_undo Utreexo.Model.MapMut.mm_verify_remember Utreexo.Model.MapMut.mm_ingest Utreexo.Model.MapMut.mm_prune Utreexo.Model.ProofUpdate.proof_update Utreexo.Model.ProofUpdate.proof_undo Utreexo.Model.UtilsFast.ProofPositions_fast Utreexo.Model.ProofOps.AddProof Utreexo.Model.ProofOps.GetProofSubset Utreexo.Model.ProofOps.GetMissingPositionsFn Utreexo.Model.MapRead.GetHash Utreexo.Model.MapRead.GetLeafPosition Utreexo.Model.MapRead.GetLeafHashPositions Utreexo.Model.MapRead.getRoots Utreexo.Model.MapRead.Prove Utreexo.Model.MapRead.GetMissingPositions Utreexo.Model.MapRead.VerifyPartialProof Utreexo.Model.MapRead.map_verify Utreexo.Spec.Geometry.geom_expect encode_pollard_of_forest decode_pollard_bytes pimage_leaf_hashes decode_map_bytes encode_map_image forest check_schedule ttl_okb chk_schedule exp_ttls chk_gethash_dual claims_true_dual mirror_map_verify chk_roots chk_count exp_leafpos chk_leafpos chk_gethash exp_prove chk_prove exp_root_indexes
   claims_true mirror_verify mirror_pollard_verify mirror_update chk_update_data
   exp_cached chk_cached chk_stored exp_missing exp_missing_stored leaves_at out_code
   apply_block spec_update_data hash_at the_stump
